@@ -372,6 +372,8 @@ def check_history(case, sess: Session):
                 elif c["t2_stage_hits"]:
                     layers.append("t2-stage")
                     sess.count("hits_served:t2-stage")
+                for l_ in layers:
+                    sess.seen("hits_observed(layer, mutation kind)", (l_, kind))
                 if layers:
                     sess.nontrivial.add(chash((kind, oi, case["ops"][oi]["text"], case["variant"])))
                 # --- compare
